@@ -121,6 +121,10 @@ def run(chk, driver, tier):
                 chk.disagreements.append({"op": o, "impl": "C15_derived_accepts_of_original holds on this instance", "model": got})
         else:
             chk.count("pep_tree:outside_theorem_domain")
+        if got.get("shaped_domain"):
+            chk.count("pep_tree:in_same_version_domain")
+            if not got.get("same_version"):
+                chk.disagreements.append({"op": o, "impl": "C15_version_parses_equal holds on this instance", "model": got})
     # the odd shapes (known finding F-C15-odd-shapes): replay the recorded witnesses
     lines = []
     if "F-C15-odd-shapes" in known:
